@@ -88,7 +88,13 @@ def _roles(repo, idx, store, proc):
         raise AnalysisError("store_info: FastaInfo(<length>, <offset>, <residues per line>, <line width>) not found")
     r["ctor"] = ctor[0]
     r["length"], r["offset"], r["rpl"] = (a.id for a in ctor[0].args[:3])
-    others = names_in(ctor[0].args[3]) - {r["rpl"]}
+    a3 = ctor[0].args[3]
+    if isinstance(a3, ast.Name):
+        d3 = [n.value for n in walk_shallow(store.node) if isinstance(n, ast.Assign) and len(n.targets) == 1 and is_name(n.targets[0], a3.id)]
+        if len(d3) == 1:
+            a3 = d3[0]
+    r["width_expr"] = a3
+    others = names_in(a3) - {r["rpl"]}
     r["line_end"] = next(iter(others)) if len(others) == 1 else None
     key = [n for n in walk_shallow(store.node) if isinstance(n, ast.Assign) and n.value is ctor[0] and isinstance(n.targets[0], ast.Subscript)]
     if len(key) != 1:
@@ -119,10 +125,21 @@ def _line_loop(idx: Func):
 def _r1(repo, L, idx: Func, roles):
     loop, hdr_if = _line_loop(idx)
     line = loop.target.id
-    seq_branch = hdr_if.orelse
-    hdr_branch = hdr_if.body
-    if not seq_branch:
-        raise AnalysisError("sequence-line branch not found")
+    # the two arms of the header test: if/else, or a guard clause (`if c: ...; continue` followed by the other arm)
+    t_arm, f_arm = list(hdr_if.body), list(hdr_if.orelse)
+    if not f_arm and t_arm and isinstance(t_arm[-1], ast.Continue):
+        t_arm = t_arm[:-1]
+        f_arm = loop.body[loop.body.index(hdr_if) + 1:]
+    # polarity of the test: `line[0] == 62` / startswith(b'>') selects the header, `!=` / `not` the sequence line
+    tst = hdr_if.test
+    neg = False
+    while isinstance(tst, ast.UnaryOp) and isinstance(tst.op, ast.Not):
+        tst, neg = tst.operand, not neg
+    if isinstance(tst, ast.Compare) and len(tst.ops) == 1 and isinstance(tst.ops[0], ast.NotEq):
+        neg = not neg
+    hdr_branch, seq_branch = (f_arm, t_arm) if neg else (t_arm, f_arm)
+    if not seq_branch or not hdr_branch:
+        raise AnalysisError("header / sequence-line branches of the line loop not both found")
 
     def assigned_where(name):
         places = set()
@@ -376,9 +393,20 @@ def _r4(repo, L, idx, proc: Func, roles):
     cons = roles["length"]
     # role discovery inside the loop
     sv = ev = None
+
+    def expand(e, depth=0):
+        """text of e with single-definition locals of the loop body substituted"""
+        if isinstance(e, ast.Name) and depth < 3:
+            defs = [x.value for x in walk_shallow(lp) if isinstance(x, ast.Assign) and len(x.targets) == 1 and is_name(x.targets[0], e.id)]
+            if len(defs) == 1 and not isinstance(defs[0], ast.Name):
+                return expand(defs[0], depth + 1)
+        if isinstance(e, ast.BinOp):
+            return f"{expand(e.left, depth)}{type(e.op).__name__}{expand(e.right, depth)}"
+        return norm(e).replace(" ", "")
+
     for n in walk_shallow(lp):
         if isinstance(n, ast.Assign) and isinstance(n.targets[0], ast.Name) and isinstance(n.value, ast.BinOp):
-            t = norm(n.value).replace(" ", "")
+            t = expand(n.value)
             if f"{mv}.start()" in t:
                 sv = n.targets[0].id
             if f"{mv}.end()" in t:
@@ -514,13 +542,24 @@ def _r6(repo, L, idx, store: Func, roles):
     proc = idx.nested.get("process_seq_buffer")
     consumed = {n.target.id for n in walk_shallow(proc.node) if isinstance(n, ast.AugAssign) and isinstance(n.target, ast.Name) and isinstance(n.value, ast.Call) and dotted(n.value.func) == "len"}
     tell = {n.targets[0].id for n in walk_shallow(idx.node) if isinstance(n, ast.Assign) and isinstance(n.targets[0], ast.Name) and isinstance(n.value, ast.Call) and isinstance(n.value.func, ast.Attribute) and n.value.func.attr == "tell"}
-    a3 = norm(c0.args[3]).replace(" ", "")
+    a3 = norm(roles.get("width_expr", c0.args[3])).replace(" ", "")
     ok = roles["length"] in consumed and roles["offset"] in tell and roles["line_end"] is not None and a3 in (f"{roles['rpl']}+{roles['line_end']}", f"{roles['line_end']}+{roles['rpl']}")
     why = f"index entry built as FastaInfo({', '.join(norm(x) for x in c0.args)}); expected (residue count, offset from tell() after the header, residues per line, residues per line + terminator width)"
     L.check(ok, "R6", store.short + ":entry", "(length, offset, linebases, linebases + terminator)", why, store.loc())
     # the terminator width is detected from the header line (1 or 2 bytes)
     le = [n for n in walk_shallow(idx.node) if isinstance(n, ast.Assign) and roles["line_end"] and is_name(n.targets[0], roles["line_end"]) and not (isinstance(n.value, ast.Constant) and n.value.value is None)]
-    okle = len(le) == 1 and isinstance(le[0].value, ast.IfExp) and try_fold(le[0].value.body, default=None) == 2 and try_fold(le[0].value.orelse, default=None) == 1 and "13" in norm(le[0].value.test)
+    okle = False
+    if len(le) == 1 and isinstance(le[0].value, ast.IfExp):
+        tv, fv_ = try_fold(le[0].value.body, default=None), try_fold(le[0].value.orelse, default=None)
+        tt = le[0].value.test
+        negt = False
+        while isinstance(tt, ast.UnaryOp) and isinstance(tt.op, ast.Not):
+            tt, negt = tt.operand, not negt
+        if isinstance(tt, ast.Compare) and len(tt.ops) == 1 and isinstance(tt.ops[0], ast.Eq | ast.NotEq) and 13 in (try_fold(tt.left, default=None), try_fold(tt.comparators[0], default=None)):
+            if isinstance(tt.ops[0], ast.NotEq):
+                negt = not negt
+            cr_val, other = (fv_, tv) if negt else (tv, fv_)
+            okle = cr_val == 2 and other == 1
     L.check(okle, "R6", idx.short + ":terminator-width", "2 for CRLF, else 1", f"terminator width computed as '{norm(le[0].value) if le else None}'", idx.loc())
     # fai_row
     fr = info.methods.get("fai_row")
